@@ -15,7 +15,11 @@ namespace nmtools::view
         auto v1 = view::fabs(array);
         auto v2 = view::power(v1,ord);
         auto v3 = view::sum(v2,axis,/*dtype*/None,/*initial*/None,keepdims);
-        auto v4 = view::power(v3,1.f/ord);
+        // the root's exponent in the array's own floating-point type: 1.f/ord made a double array lose
+        // precision for every ord whose reciprocal is not exact in float (ord 3: relative error 3e-8)
+        using element_t  = meta::get_element_type_t<array_t>;
+        using exponent_t = meta::conditional_t<meta::is_floating_point_v<element_t>,element_t,float>;
+        auto v4 = view::power(v3,static_cast<exponent_t>(1)/ord);
         return v4;
     } // vector_norm
 } // nmtools::view
